@@ -28,6 +28,7 @@ import NeoModel.Proofs.MptRcFlush
 import NeoModel.Proofs.MptRcExact
 import NeoModel.Proofs.MptRcRun
 import NeoModel.Proofs.MptRcLazy
+import NeoModel.Proofs.MptRcDrop
 import NeoModel.Proofs.MptRcRefine
 import NeoModel.Proofs.MptRcGcIndex
 import NeoModel.Proofs.MptRcGoTie
@@ -317,6 +318,34 @@ theorem uncommitted_block_breaks_exactness :
     (withDrop.map fun s => (occH toyH s.root (hash toyH (.leaf [0xcc])),
         (sget s.store (hash toyH (.leaf [0xcc]))).isSome)) = some (1, false) := by
   decide
+
+/-- C11.5b what a dropped block leaves behind, EXACTLY (the shape of every `uncommitted-block:*`
+finding): `dropBlock` is `commit` with the node store, the root records and the retained heights put
+back. The module continues from the live trie and the refcount map of a phantom state `c` — the state
+it would be in had the block been committed —, which satisfies the history invariant on ITS store;
+the real store differs from the phantom one exactly under the hashes the dropped block's events
+touched with a non-zero net (old flag/count there instead of the dropped block's). So afterwards:
+the committed roots contain the dropped changes (`uncommitted-block:root`); every cached count of the
+shared map is the number of occurrences in the dropped block's trie, not the stored one
+(`…:store:count-mismatch`, `garbage-node`, `unreachable-active`, `reachable-inactive`, a negative
+count = `…:panic`); the dropped block's new nodes have no record (`…:store:*:node-missing`). -/
+theorem uncommitted_block_leaves_phantom (H : Bytes → Bytes) (mode : Mode) (hrc : mode.rc = true) (top : Option Nat)
+    (s : St) (idx : Nat) (ops : List SubOp) (hinv : Inv H mode top s) (hh : ∀ h, top = some h → h < idx) :
+    ∃ c s', commit H s idx ops = some c ∧ dropBlock H s idx ops = some s' ∧
+      Inv H mode (some idx) c ∧
+      s'.root = c.root ∧ s'.rc = c.rc ∧ s'.store = s.store ∧ s'.roots = s.roots ∧ s'.hist = s.hist ∧
+      c.root = trieAfter s.root ops ∧
+      (∀ k, ctag (sget c.store k) = if net (hP H k) (blockEvs s.root ops) = 0 then ctag (sget s'.store k)
+        else tagAfter mode idx (occH H c.root k)) ∧
+      (∀ k e, mget s'.rc k = some e → e.delta = 0 ∧ (e.initial ≠ 0 → e.initial = occH H c.root k)) :=
+  drop_phantom H mode hrc top s idx ops hinv hh
+
+-- non-vacuity: the witness history above: after the drop the map caches count 1 for the dropped leaf
+-- `cc`, which has no record
+set_option maxRecDepth 100000 in
+example : ((commit toyH { mode := .latest } 0 wB0).bind fun a => (dropBlock toyH a 1 wDrop).map fun b =>
+    ((mget b.rc (hash toyH (.leaf [0xcc]))).map (·.initial), (sget b.store (hash toyH (.leaf [0xcc]))).isSome)) =
+    some (some 1, false) := by decide
 
 /-! ## 6. the node's own choice of the collection index (blockchain.go tryRunGC) -/
 
